@@ -73,7 +73,9 @@ def vm_check(cases, g, log, tier):
 def coq_cop(o):
     t = o.split()
     n = t[0]
-    if n in ("CAdd", "CSub", "CMul", "CQuo", "CFMA", "CNeg", "CAbs", "CSet", "CSqrt", "CNew", "CNilOperand"):
+    if n == "CNilOperand":
+        return "(CNilOperand %s)" % t[1]
+    if n in ("CAdd", "CSub", "CMul", "CQuo", "CFMA", "CNeg", "CAbs", "CSet", "CSqrt", "CNew"):
         return "(%s %s)" % (n, " ".join(t[1:]))
     if n == "CErr":
         return "CErr"
@@ -113,7 +115,7 @@ def gen(rng, tier):
             elif k == 17:
                 ops.append(rng.choice(["CNew %d" % z, "CNewInt64 %d %d" % (z, rng.randint(-10**12, 10**12)), "CNewUint64 %d %d" % (z, rng.randint(0, 2**64 - 1))]))
             elif k == 18:
-                ops.append("CNilOperand %d" % z)
+                ops.append("CNilOperand %d %d" % (z, rng.randint(0, 5)))
             else:
                 # receiver aliased with an operand (allowed, but outside the rounding clause)
                 ops.append("%s %d %d %d" % (rng.choice(["CAdd", "CMul"]), z, z, a))
